@@ -211,6 +211,8 @@ def parseInit (toks : List String) : Option HistState :=
   | _ => none
 
 /-- process one `H …` line: returns the new state (if any) and the output line -/
+def natArgsI (l : List String) : Option (List Int) := l.mapM String.toInt?
+
 def parseSupplied (t : String) : Option Supplied :=
   match t.splitOn ":" with
   | [a, k] => do
@@ -247,6 +249,19 @@ def histLine (st : Option HistState) (toks : List String) : Option HistState × 
     match st with
     | none => (st, "bad-op")
     | some s =>
+      match (match toks with | "af" :: rest => some rest | _ => none) with
+      | some rest =>
+        match natArgsI rest with
+        | some [fp, dp, rf, cf, mx, gs, mj, lr, lm, vr, gr, va] =>
+          let c : AfConstants := { filterPeriod := fp.toNat, decayPeriod := dp.toNat, reductionFactor := rf.toNat, controlFactor := cf.toNat,
+                                   maxVolAcc := mx.toNat, groupSize := gs.toNat, majorSwapThresholdTicks := mj.toNat }
+          if !validateConstants s.pool.ts c then (some s, s!"err InvalidAdaptiveFeeConstants | " ++ digest s)
+          else
+            let v : AfVariables := { lastRefUpdateTs := lr.toNat, lastMajorSwapTs := lm.toNat, volRef := vr.toNat, groupIndexRef := gr, volAcc := va.toNat }
+            let s' := { s with af := some { constants := c, variables := v } }
+            (some s', "ok | " ++ digest s')
+        | _ => (st, "bad-op")
+      | none =>
       let parsed : Option (R HistOp) := match toks with
         | "pswap" :: rest => pswapOp s rest
         | _ => (parseOp toks).map .ok
